@@ -141,6 +141,7 @@ def charges(rep):
                 if m:
                     for g in (1, 2, 3):
                         env[f"{MV}.group({g})"] = m.group(g)
+                    env[f"{MV}.groups()"] = m.groups()
                 got = eval_function(rd.node, env)
                 n += 1
                 if tuple(got) != (element, q):
@@ -610,7 +611,23 @@ def gml_reader(rep):
     sy = rep.f(G2N, "GMLToNX._synchronize_nodes_and_edges")
     pm = parent_map(sy.node)
     adds = [c for c in walk_local(sy.node) if isinstance(c, ast.Call) and call_name(c) in ("add_node", "add_edge")]
-    sides = sorted(norm(c.func.value) + "." + call_name(c) for c in adds)
+    sdefs = local_defs(sy.node)
+
+    def receivers(c):
+        """the graphs a call may be made on: `self.graphs['left']`, or `side = self.graphs[name]` with name running over a literal tuple of side names"""
+        rv = origin(sdefs, c.func.value)
+        for lp_ in enclosing_loops(pm, c, sy.node):  # a name bound once per loop: resolve it inside the innermost loop that binds it
+            if isinstance(rv, ast.Name):
+                rv = origin(local_defs(lp_), rv)
+        m_ = pmatch("self.graphs[$n]", rv)
+        if m_ is not None:
+            for it_ in iterations(pm, c, sy.node):
+                if isinstance(it_.target, ast.Name) and it_.target.id == m_["n"]:
+                    lit = origin(sdefs, it_.iter)
+                    if isinstance(lit, (ast.Tuple, ast.List)) and all(isinstance(e, ast.Constant) and isinstance(e.value, str) for e in lit.elts):
+                        return [f"self.graphs['{e.value}']" for e in lit.elts]
+        return [norm(rv)]
+    sides = sorted(r_ + "." + call_name(c) for c in adds for r_ in receivers(c))
     want = sorted([f"self.graphs['{s}'].{m}" for s in ("left", "right") for m in ("add_node", "add_edge")])
     rep.ob("O10.1", "R3b", sy, sides == want, sides, "context atoms and bonds are restored on both the left and the right side")
     tr = rep.f(G2N, "GMLToNX.transform")
@@ -621,7 +638,7 @@ def gml_reader(rep):
     ok = bool(rets) and norm(rets[-1].value) == "(self.graphs['left'], self.graphs['right'], self.graphs['context'])"
     rep.ob("O10.1", "R3b", tr, ok, rets[-1] if rets else "return", "transform returns (left, right, ITS)")
     sec = [n for n in walk_local(tr.node) if isinstance(n, ast.Assign) and norm(n.targets[0]) == "current_section"]
-    names = [n for n in walk_local(tr.node) if isinstance(n, ast.List) and all(isinstance(e, ast.Constant) for e in n.elts) and len(n.elts) == 3]
+    names = [n for n in walk_local(tr.node) if isinstance(n, (ast.List, ast.Tuple, ast.Set)) and all(isinstance(e, ast.Constant) and isinstance(e.value, str) for e in n.elts) and len(n.elts) == 3]
     ok = bool(names) and sorted(e.value for e in names[0].elts) == ["context", "left", "right"]
     rep.ob("O10.1", "R3b", tr, ok, names[0] if names else "sections", "the reader recognises the three section names the writer emits")
 
